@@ -178,10 +178,19 @@ def laneMonitor : List String → String
     | none => "bad-op"
   | _ => "bad-op"
 
+/-- the race-tolerant reading (classification of the known finding `c06-settings-ack-race`) -/
+def laneMonitorTolerant : List String → String
+  | [consumed, events] =>
+    match (splitNonEmpty events ";").mapM parseEvent with
+    | some evs => Monitor.verdictTolerant evs (consumed == "1")
+    | none => "bad-op"
+  | _ => "bad-op"
+
 def lanes : List (String × (List String → String)) := [
   ("c06flow", laneFlow),
   ("c06script", laneScript),
-  ("c06monitor", laneMonitor)
+  ("c06monitor", laneMonitor),
+  ("c06monitortol", laneMonitorTolerant)
 ]
 
 end Req.Driver.L.C06
